@@ -101,7 +101,11 @@ var c03Skeletons = []string{
 	"; drop table t", "; exec xp_cmdshell 'x'", "; insert into t values (1)", "; delete from t", "; update t set a=1",
 	"and sleep(5)", "or sleep(5)", "and benchmark(1,2)", "and extractvalue(1,2)", "and updatexml(1,2,3)", "or pg_sleep(5)", "and (select 1)", "and 1=(select 1)", "and (select count(*) from t)>0", "and if(1=1,sleep(5),0)", "and ascii(substring(user(),1,1))>64", "and load_file('x')",
 	"order by 1", "group by 1", "having 1=1", "limit 1",
+	"or (1=1)", "or (1)=(1)", "and (1=1)", "or ('a'='a')", "or (select 1)=1", "and 1 in (1)", "or not 1=2", "or 1 between 0 and 2", "or 1 is not null", "and exists (select 1)",
 }
+
+// detected only when the injection closes a parenthesis (prefix ends in ')'): the payload re-opens it
+var c03ParenSkeletons = []string{"or (1=1", "and (1=1", "or ('a'='a", "or (1)=(1", "or ((1=1)"}
 var c03Prefixes = []string{"1 ", "x' ", "x\" ", "1) ", "x') ", "1"}
 var c03Tails = []string{"", " --", " -- x", " #", "/*", "-- ", ";--", "--", "#", " /*", "--\n", "/*!1*/"}
 var c03Seps = []string{" ", "\t", "\n", "/**/", "  ", "\x0b", "\x0c", "\r", "\xa0", "\x00", "/*x*/", " /**/ ", "\t\n"}
@@ -157,6 +161,17 @@ func enumC03(c *oracleCfg, chk func(in, what string)) {
 					for ci := 0; ci < 3; ci++ {
 						body := caseAssign(strings.ReplaceAll(sk, " ", sp), ci, nil)
 						chk(pr+body+tl, "skeleton="+sk)
+					}
+				}
+			}
+		}
+	}
+	for _, sk := range c03ParenSkeletons {
+		for _, pr := range []string{"1) ", "x') ", "1)", "x')", "1)) ", "x\") "} {
+			for _, tl := range c03Tails {
+				for _, sp := range c03Seps {
+					for ci := 0; ci < 3; ci++ {
+						chk(pr+caseAssign(strings.ReplaceAll(sk, " ", sp), ci, nil)+tl, "paren-skeleton="+sk)
 					}
 				}
 			}
@@ -512,6 +527,11 @@ func oracleC14(c *oracleCfg) *report {
 	return r
 }
 
+// words that appear as string literals in the detection code (markers, function names, phrases): a rule that
+// fires on the raw text of such a word, outside the fingerprint table, would make it a false positive
+var c14Literals = []string{"sp_password", "SP_PASSWORD", "Sp_Password", "sp_passwordx", "xsp_password", "password", "outfile", "dumpfile", "collate_x", "x_collate",
+	"javascript", "script", "onerror", "xp_cmdshell", "information_schema", "load_file", "benchmark_x", "sleep_x", "waitfor_x", "pg_sleep_x"}
+
 // enumC14 enumerates the benign grammar (also the correspondence stream g14).
 func enumC14(c *oracleCfg, chk func(fam, s string, nt bool)) {
 	comp := keywordComponents()
@@ -573,6 +593,15 @@ func enumC14(c *oracleCfg, chk func(fam, s string, nt bool)) {
 			}
 		}
 		chk("core", strings.Join(parts, " "), k >= 2)
+		if i < len(c14Literals)*4 { // words the code itself compares input text with, if they are not key components
+			w := c14Literals[i%len(c14Literals)]
+			if !comp[strings.ToUpper(w)] {
+				chk("literal", w, true)
+				chk("literal", parts[0]+" "+w, true)
+				chk("literal", "7 "+w+" 7", true)
+				chk("literal", w+" "+strings.Join(parts, " "), true)
+			}
+		}
 		chk("email", word()+"@"+word()+"."+word(), true)
 		chk("email2", word()+"."+word()+"@"+word()+"."+word(), true)
 		chk("decimal", num()+"."+num(), true)
@@ -623,7 +652,7 @@ func enumC14(c *oracleCfg, chk func(fam, s string, nt bool)) {
 
 func oracleC16(c *oracleCfg) *report {
 	r := newReport("C16", "token-stream invariants on every generated SQL input in the six modes; non-trivial = at least two tokens as-is")
-	parallel(c.stream("sq"), func(s string) {
+	check := func(s string) {
 		nt := false
 		for _, f := range sqlModes {
 			toks, _, end, st := li.VerifSQLiTokens(s, f)
@@ -673,7 +702,21 @@ func oracleC16(c *oracleCfg) *report {
 			}
 		}
 		r.eval(s, nt)
-	})
+	}
+	parallel(c.stream("sq"), check)
+	// inputs longer than any fixed buffer or 16-bit length (the model side of the correspondence stops at 64 kB;
+	// the invariants are checked on the implementation alone): the scan must still end at |s|
+	sizes := []int{70000, 140000}
+	if c.thorough() {
+		sizes = []int{70000, 140000, 1<<20 + 7, 5 << 20}
+	}
+	for _, n := range sizes {
+		for _, u := range []string{"a ", "1 ", " ", "a", "1", "'a' ", "a,", "1+", "(", "-- \n", "/**/", "`a` ", "@a ", "x=1 or ", "1 union select ", "$1 ", "a.b "} {
+			check(strings.Repeat(u, n/len(u)+1))
+			check(strings.Repeat(" ", n) + "1 union select 2")
+			check(strings.Repeat(u, n/len(u)+1) + "'x")
+		}
+	}
 	return r
 }
 
@@ -866,9 +909,9 @@ func oracleC18(c *oracleCfg) *report {
 	if c.thorough() {
 		db = 6
 	}
-	for _, tag := range []string{"", "a", "ab", "B"} {
+	dollarCheck := func(tag string, bound int) {
 		open := "$" + tag + "$"
-		exhaustive("", []byte("$ab' B"), db, func(body string) {
+		exhaustive("", []byte("$ab' B"), bound, func(body string) {
 			s := open + body
 			toks, _, _, st := li.VerifSQLiTokens(s, 9)
 			if st != "" {
@@ -889,6 +932,34 @@ func oracleC18(c *oracleCfg) *report {
 			}
 			r.eval(s, want >= 0)
 		})
+		// the body closed by its own tag, a decoy that differs in the last letter, and no closer at all
+		for _, body := range []string{"x" + open, "x$" + tag + "y" + open + "1", "x", "x$" + tag, " or 1=1" + open + " or 1=1"} {
+			s := open + body
+			toks, _, _, st := li.VerifSQLiTokens(s, 9)
+			if st != "" || len(toks) == 0 {
+				if st == "" {
+					r.fail("dollar-no-token", s, "")
+				}
+				continue
+			}
+			want := strings.Index(body, open)
+			t := toks[0]
+			if want < 0 {
+				if t.Cat != 's' || t.Pos != len(open) || t.Close != 0 || t.Open != '$' || t.After != len(s) {
+					r.fail("dollar-string-end", s, fmt.Sprintf("unterminated: got %+v", t))
+				}
+			} else if t.Cat != 's' || t.Pos != len(open) || t.Close != '$' || t.Open != '$' || t.After != len(open)+want+len(open) || t.Len != min(want, 31) {
+				r.fail("dollar-string-end", s, fmt.Sprintf("want content len %d: got %+v", want, t))
+			}
+			r.eval(s, want >= 0)
+		}
+	}
+	for _, tag := range []string{"", "a", "ab", "B"} {
+		dollarCheck(tag, db)
+	}
+	for _, k := range runLengths { // tags of every length around the token-size and power-of-two boundaries
+		dollarCheck(strings.Repeat("a", k), 1)
+		dollarCheck(strings.Repeat("a", k)+"Z", 1)
 	}
 	return r
 }
